@@ -1,13 +1,13 @@
-(* nrepl_replay <fx:0|1> <labels separated by spaces>
+(* nrepl_replay <code variant 0|1|2 = as found | fix-1 | fix-1+fix-2> <labels separated by spaces>
    Replays an event log (converted to labels by tools/props/C30.py) through the
    extracted Nrepl.step.  Answer:
      accepted TAB <quiescent:0|1> TAB <socket history predicted by the model, oldest first>
      rejected TAB <index of the first label that is not enabled> TAB <label>
    Label syntax:
      R:clone R:plain R:sess:<k>:<e|s> R:int:<k> R:close:<k>           LRecv
-     r:enq r:unk r:flag r:closed r:drop r:new r:plain r:send            LReader
+     r:enq r:unk r:flag r:ignore r:closed r:drop r:new r:plain r:send   LReader
      w:<k>:deq|exit|reset|ldc|reflag|bsimple|bparse|bwarn|bspawn|check|checkint|
-           po:<tok>|pe:<tok>|fok:<n>|ferr|stopfl|join|take|send         LWorker
+           po:<tok>|pe:<tok>|fok:<n>|ferr|stopfl|join|take|send|done    LWorker
      f:<k>:timeout|stop|take|send                                       LFlusher
      W                                                                  LWriter
      S:<k>                                                              LSigint
@@ -28,7 +28,7 @@ let parse_label (s : string) : label * bool =
   | ["R"; "close"; k] -> (LRecv (OClose (nat k)), false)
   | ["r"; a] ->
     (LReader (match a with
-         | "enq" -> RAEnq | "unk" -> RAUnknown | "flag" -> RAFlag | "closed" -> RAClosed
+         | "enq" -> RAEnq | "unk" -> RAUnknown | "flag" -> RAFlag | "ignore" -> RAIgnore | "closed" -> RAClosed
          | "drop" -> RADrop | "new" -> RANew | "plain" -> RAPlain | "send" -> RASend
          | _ -> failwith ("bad reader action " ^ a)), false)
   | "w" :: k :: rest ->
@@ -41,7 +41,7 @@ let parse_label (s : string) : label * bool =
       | ["po"; t] -> (WAPrint (SOut, nat t), false) | ["pe"; t] -> (WAPrint (SErr, nat t), false)
       | ["fok"; n] -> (WAFinish (ROk (nat n)), false) | ["ferr"] -> (WAFinish RErr, false)
       | ["stopfl"] -> (WAStopFl, false) | ["join"] -> (WAJoin, false)
-      | ["take"] -> (WATake, false) | ["send"] -> (WASend, false)
+      | ["take"] -> (WATake, false) | ["send"] -> (WASend, false) | ["done"] -> (WADone, false)
       | _ -> failwith ("bad worker action " ^ s) in
     (LWorker (nat k, a), chk)
   | ["f"; k; a] ->
@@ -71,7 +71,7 @@ let interrupted_after (st : state) (k : int) : bool =
 let () = register "nrepl_replay" (fun args ->
     match args with
     | fx :: rest ->
-      let fx = (fx = "1") in
+      let fx = (match fx with "0" -> VAsFound | "1" -> VFix1 | _ -> VFix2) in
       let toks = List.filter (fun s -> s <> "") (String.split_on_char ' ' (String.concat " " rest)) in
       let rec go st i = function
         | [] -> Printf.sprintf "accepted\t%d\t%s" (if quiescent st then 1 else 0)
